@@ -485,7 +485,52 @@ C16 = dict(
                  "a rejected history stops the validation of the remaining histories in the same shard"],
 )
 
-FAMILIES = {"C01": MPT, "C02": MPT, "C14": MPT, "C06": SC, "C07": SC, "C08": C08, "C03": ROUNDS, "C04": ROUNDS, "C05": ROUNDS, "C17": SYNC, "C16": C16}
+# ----------------------------------------------------------------------------- family: wmpt (C09, C11, C13)
+
+def _wmpt_ops(events):
+    ops = []
+    for e in events:
+        op = e["op"]
+        if op in ("update", "updel", "delete"):
+            ops.append(dict(op=op, k=e["k"], v=e.get("v", "")))
+        elif op == "commitbegin":
+            ops.append(dict(op="commit", level=e["level"]))
+        elif op == "gcbegin":
+            ops.append(dict(op="gc"))
+        elif op in ("reload", "readroot", "owners", "saveroot"):
+            ops.append(dict(op=op))
+        elif op == "rolledback":
+            ops.append(dict(op=e["how"]))
+    return dict(mode="replay", ops=ops)
+
+
+WMPT = dict(
+    name="wmpt", component="wmpt", trace_module="WMPTTrace", trace_cfg="WMPTTrace.cfg",
+    design={"quick": [("WMPT_MC", "WMPT_MC.cfg")], "thorough": [("WMPT_MC", "WMPT_MC.cfg")]},
+    gen={"quick": [dict(module="WMPT_MC", cfg="WMPT_gen_sim.cfg", workers=1,
+                        extra=["-simulate", "num=1200", "-depth", "20", "-seed", "{seed}"])],
+         "thorough": [dict(module="WMPT_MC", cfg="WMPT_gen_ex.cfg", workers=1, timeout=3000),
+                      dict(module="WMPT_MC", cfg="WMPT_gen_sim.cfg", workers=1, timeout=3000,
+                           extra=["-simulate", "num=40000", "-depth", "20", "-seed", "{seed}"])]},
+    exec_args=lambda tier, seed: (["-n", 1200] if tier == "quick" else ["-n", 30000]),
+    flags={"C09": {"weight", "change", "owner", "root", "rootfn", "range", "res", "unknown-op"},
+           "C11": {"durable", "commitincomplete", "reopen", "storekeys"},
+           "C13": {"rollbackroot", "rollbackweight", "rollbackdamage", "rollbackleft", "rollbackreopen"}},
+    distinct=lambda s: s.get("distinct_signatures", 0),
+    rule="histories = (a) behaviours of WMPT.tla (update/delete/commit at levels 0,1,3/gc/reload/readroot/owners/saveroot/"
+         "rollback) emitted by TLC -simulate (thorough: plus every behaviour of depth 4 over 2 keys); (b) seeded random histories "
+         "in generator modes plain/shared/dirty/again/all and checkpoint-commit-rollback scenarios, over ten 32-byte keys sharing "
+         "prefixes of 0..63 nibbles; one trace event per storage write element; reopen from (root, weight) after every commit, gc "
+         "and rollback; distinct_nontrivial = distinct operation-kind signatures of whole histories",
+    summary_keys=["commits", "gcs", "owner_observations", "rollbacks", "distinct_nodes", "generator_modes", "go_histories", "panics"],
+    ops_of=_wmpt_ops,
+    assumptions=["storage = in-memory StorageAdapter with atomic batches (Pebble itself is not exercised)",
+                 "weight is a function of the value (length of the value's part before '#')",
+                 "independent root/weight computation and node parsing by harness/bridge/wmpt.go",
+                 "SaveRoot/reload are only issued on a clean (committed) trie; exactly one commit between checkpoint and rollback"],
+)
+
+FAMILIES = {"C01": MPT, "C02": MPT, "C14": MPT, "C06": SC, "C07": SC, "C08": C08, "C03": ROUNDS, "C04": ROUNDS, "C05": ROUNDS, "C17": SYNC, "C16": C16, "C09": WMPT, "C11": WMPT, "C13": WMPT}
 PROPS = dict(FAMILIES)
 
 
